@@ -208,6 +208,14 @@ CHECKS = {
          'generated to text which must load to the same value and parse back to the same term; invalid documents must have no parse.',
     note='First solution only; non-integer numbers within 2 ulp (the library computes them arithmetically); surrogate-pair '
          'escapes are not generated.'),
+ 'C51': dict(
+    level='exploration',
+    technique='runtime monitoring: reference model (documents generated together with their rows, RFC 4180 rendering, documented field typing) + write/parse round trip through a real file',
+    text='Generated tables (plain words, empty fields, integers/decimals, fields needing quotes: separators, quotes, CR/LF/CRLF, '
+         'spaces, Unicode) are rendered per RFC 4180 with separators , ; | tab and LF/CRLF line ends and parsed with parse_csv//2 '
+         '(with_header, token_separator), the frame must equal the generated rows; frames are written with write_csv/3 '
+         '(line_separator, token_separator, with_header) to a file whose text must parse back to the same frame.',
+    note='Numeric-looking fields restricted to plain integers/decimals (typing follows number_chars/2); rows have >= 2 columns.'),
 }
 
 NOT_APPLICABLE_REASON_UNBUILT = ('check designed in DESIGN.md but not built/validated yet in this session; '
